@@ -376,6 +376,25 @@ impl Data {
             };
         }
 
+        // Un elemento definido dos veces con el mismo nombre (bloque repetido) se queda con la
+        // última definición, igual que las definiciones que se guardan por nombre
+        fn keep_last_by_name<T>(items: Vec<T>, name: impl Fn(&T) -> String) -> Vec<T> {
+            let mut seen = std::collections::BTreeSet::new();
+            let mut unique: Vec<T> = Vec::with_capacity(items.len());
+            for item in items.into_iter().rev() {
+                if seen.insert(name(&item)) {
+                    unique.push(item);
+                }
+            }
+            unique.reverse();
+            unique
+        }
+        let spaces = keep_last_by_name(spaces, |e| e.name.clone());
+        let walls = keep_last_by_name(walls, |e| e.name.clone());
+        let windows = keep_last_by_name(windows, |e| e.name.clone());
+        let thermal_bridges = keep_last_by_name(thermal_bridges, |e| e.name.clone());
+        let shadings = keep_last_by_name(shadings, |e| e.name.clone());
+
         Ok(Self {
             meta,
             db,
